@@ -1,8 +1,14 @@
 #!/bin/bash
-# usage: confirm_seed.sh <id> <worktree> <pattern> "<module-relative dir>:<pkgs>" ...   (run in the agent's worktree: patch applied, demo present)
+# usage: confirm_seed.sh <id> <worktree> <pattern> "<module-relative dir>:<pkgs>" ...
+# Confirms a seeded change independently of the state the agent left its worktree in: the tracked files are reset, the delivered
+# patch.diff is applied explicitly (no `git stash`: refs/stash is shared by all worktrees of a repository), the untracked
+# demonstration files stay where the agent put them.
 export GOFLAGS=-mod=mod GOPROXY=off GOSUMDB=off GOTOOLCHAIN=local
 id="$1"; wt="$2"; pat="$3"; shift 3
+patch=/tmp/seedout/$id/patch.diff
 log=/tmp/seedout/$id/confirm.log; : > $log
+(cd "$wt" && git checkout -q -- . && git apply "$patch") >> $log 2>&1 || { echo "RESULT patch_applies=NO" | tee -a $log; exit 1; }
+echo "RESULT patch_applies=YES ($(cd $wt && git diff --stat | tail -1))" >> $log
 demo() { rc=0; for spec in "$@"; do dir="${spec%%:*}"; pk="${spec#*:}"; (cd "$wt/$dir" && go test -vet=off -count=1 -timeout 10m -run "$pat" $pk) >> $log 2>&1 || rc=1; done; return $rc; }
 echo "== demo with patch (expect FAIL)" >> $log
 if demo "$@"; then echo "RESULT demo_with_patch=PASS(unexpected)" >> $log; else echo "RESULT demo_with_patch=FAIL(expected)" >> $log; fi
@@ -11,8 +17,8 @@ s=0
 (cd $wt && go test -vet=off -count=1 -timeout 25m -skip "$pat" ./...) >> $log 2>&1 || s=1
 (cd $wt/v2 && go test -vet=off -count=1 -timeout 25m -skip "$pat" ./...) >> $log 2>&1 || s=1
 echo "RESULT suites_with_patch=$([ $s = 0 ] && echo PASS || echo FAIL)" >> $log
-(cd $wt && git stash -q) || exit 1
+(cd "$wt" && git apply -R "$patch") || exit 1
 echo "== demo without patch (expect PASS)" >> $log
 if demo "$@"; then echo "RESULT demo_without_patch=PASS(expected)" >> $log; else echo "RESULT demo_without_patch=FAIL(unexpected)" >> $log; fi
-(cd $wt && git stash pop -q)
+(cd "$wt" && git apply "$patch")
 grep RESULT $log
